@@ -124,6 +124,18 @@ def rule_conversions(ctx, repo):
                         r.violated('skippable:%s' % key, common.site_of(fi, node), 'the conversion of `%s` in Proxy.%s sits behind `%s` inside a try whose `except %s` carries on: when that '
                                    'statement raises, the value is handed out unconverted (the wire form)' % (inner, name, norm(par_.body[0])[:50], norm(soft[0].type) if soft[0].type is not None else ''), sure=True)
                 cur_ = par_
+            # a field that is converted only when present: the conversion sits on the side of the test where it IS present
+            m_ = re.match(r"^(\w+)\[('[^']+')\]$", inner)
+            if m_ and (conv in ('lx', 'amount-in') or conv in ('hex-in:CTransaction', 'hex-in:CBlock', 'hex-in:CBlockHeader')):
+                from ..escape import path_condition
+                for t_, pol in path_condition(node):
+                    tt = norm(t_)
+                    if (tt == "%s in %s" % (m_.group(2), m_.group(1)) and not pol) or (tt == "%s not in %s" % (m_.group(2), m_.group(1)) and pol):
+                        r.violated('presence:%s' % key, common.site_of(fi, node), 'Proxy.%s converts `%s` on the side of `%s` where the field is ABSENT: a reply that carries it is handed out unconverted, '
+                                   'one that lacks it raises KeyError' % (name, inner, tt), sure=True)
+                par_ = getattr(node, '_parent', None)
+                if isinstance(par_, ast.IfExp) and par_.body is node and norm(par_.test) == "%s not in %s" % (m_.group(2), m_.group(1)):
+                    r.violated('presence:%s' % key, common.site_of(fi, node), 'Proxy.%s converts `%s` when `%s`: the field is converted exactly when it is absent' % (name, inner, norm(par_.test)), sure=True)
             want = TABLE.get((name, inner))
             if want is None:
                 # the same crossing under another spelling of the value (a renamed local, the call written in place):
@@ -187,6 +199,8 @@ def rule_round_trip(ctx, repo):
             return facts
         mf = flow.run_must(node, gen=gen)
         return mf.exits
+    common.rule_defaults(r, repo, [(RPC + 'Proxy.' + m_, 'verbose', False, 'the plain call returns the node\'s JSON object instead of the %s the method is documented to convert' % w_)
+                                   for m_, w_ in (('getblockheader', 'header'), ('getrawtransaction', 'transaction'), ('getrawmempool', 'list of txids'))])
     for name, fi in sorted(px.methods.items()):
         known = inv.get(fi.qualname)
         if known is None or not known.get('source') or name.startswith('_'):
@@ -219,13 +233,46 @@ def rule_round_trip(ctx, repo):
         new_fall = [e for e in new_exits if e[0] == 'fallthrough']
         new_bare = [e for e in new_exits if e[0] == 'return' and (e[1].value is None or (isinstance(e[1].value, ast.Constant) and e[1].value.value is None))]
         key = 'returns:%s' % name
-        if not in_side:
-            pass  # nothing of the reply is converted: what the method returns is outside the property
+        def own_call(e):
+            return e[1] is not None and any(isinstance(c, ast.Call) and norm(c.func) == 'self._call' for c in ast.walk(e[1]))
+        unsent_all = [e for e in new_exits if e[0] in ('return', 'fallthrough') and 'sent' not in e[2] and not own_call(e)]
+        old_unsent_all = [e for e in old_exits if e[0] in ('return', 'fallthrough') and 'sent' not in e[2] and not own_call(e)]
+        # the literal arguments of a request select the form of the reply the method goes on to convert (verbosity flags)
+        def req_args(node):
+            out = {}
+            for c in ast.walk(node):
+                if isinstance(c, ast.Call) and norm(c.func) == 'self._call' and c.args and isinstance(c.args[0], ast.Constant):
+                    out.setdefault((c.args[0].value, len(c.args)), []).append(c)
+            return out
+        oa, na = req_args(old), req_args(fi.node)
+        for k_, ocs in oa.items():
+            ncs = na.get(k_, [])
+            if len(ncs) != len(ocs):
+                continue
+            for oc, nc in zip(ocs, ncs):
+                for x_, y_ in zip(oc.args[1:], nc.args[1:]):
+                    from ..tokenedit import leaf_diffs
+                    d_ = leaf_diffs(x_, y_)
+                    flag_lost = isinstance(y_, ast.IfExp) and isinstance(y_.body, ast.Constant) and isinstance(y_.orelse, ast.Constant) and y_.body.value == y_.orelse.value \
+                        and isinstance(x_, ast.IfExp) and norm(x_.body) != norm(x_.orelse)
+                    raw_block = name == 'getblock' and isinstance(x_, ast.Constant) and x_.value is False and isinstance(y_, ast.Constant) and y_.value is not False
+                    if d_ and all(kind == 'const' for kind, a_, b_, anc in d_) and (flag_lost or raw_block):
+                        r.violated('request-form:%s' % name, common.site_of(fi, nc), 'Proxy.%s asks the node with `%s` where the confirmed method sends `%s`: the reply comes in another form than the one the method converts'
+                                   % (name, norm(y_)[:40], ast.unparse(x_)[:40]), sure=True)
+        fewer_calls = sum(len(v_) for v_ in na.values()) < sum(len(v_) for v_ in oa.values())
+        raw_gone = sum(1 for e in old_exits if e[0] == 'return' and e[1] is not None and isinstance(e[1].value, ast.Call) and norm(e[1].value.func) == 'self._call') > \
+            sum(1 for e in new_exits if e[0] == 'return' and e[1] is not None and isinstance(e[1].value, ast.Call) and norm(e[1].value.func) == 'self._call')
+        if raw_gone and in_side:
+            r.undecided(key, fi.site, 'a path of Proxy.%s that handed the node\'s reply through as it is no longer returns it' % name)
+        elif len(unsent_all) > len(old_unsent_all) and fewer_calls and not ((new_fall and not old_fall) and in_side):
+            e0 = unsent_all[0]
+            r.violated(key, common.site_of(fi, e0[1]) if e0[1] is not None else fi.site, 'Proxy.%s finishes on a path on which no request was sent (the confirmed method always asks the node): nothing crosses the wire, '
+                       'and an error reply can never be raised' % name, sure=True)
+        elif not in_side:
+            r.ok(key, fi.site, 'every finishing path has sent its request')
         elif (new_fall and not old_fall) or (len(new_bare) > len(old_bare)):
             r.violated(key, fi.site, 'Proxy.%s can now finish without a return value (the confirmed method always returns the converted reply): the caller receives None' % name, sure=True)
         else:
-            def own_call(e):
-                return any(isinstance(c, ast.Call) and norm(c.func) == 'self._call' for c in ast.walk(e[1]))
             unsent = [e for e in new_exits if e[0] == 'return' and 'sent' not in e[2] and not own_call(e)]
             old_unsent = [e for e in old_exits if e[0] == 'return' and 'sent' not in e[2] and not own_call(e)]
             if len(unsent) > len(old_unsent):
